@@ -58,6 +58,8 @@ fixed('C20', 'G1', 'a69477f', 'sum_except_batch(arange(3.), 1) returned a scalar
 fixed('C20', 'G2', '3e70b12', 'gaussian_kde_log_eval raised a dtype mismatch for float64 samples (float32 torch.eye)', {'function': 'gaussian_kde_log_eval', 'symptom': 'dtype-error', 'dtype': 'float64'})
 fixed('C20', 'G3a', '8b73dff', 'merge_leading_dims(zeros(2,0), 1) raised (reshape(-1, 0))', {'function': 'merge_leading_dims', 'symptom': 'empty-trailing-dims-raise'})
 fixed('C20', 'G3b', '8b73dff', 'repeat_rows(zeros(2,0), 3) raised (reshape(-1, 0))', {'function': 'repeat_rows', 'symptom': 'empty-trailing-dims-raise'})
+known('C17', 'F27', "PiecewiseQuadraticCDF(shape, num_bins=1, tails='linear') / unconstrained_quadratic_spline with one bin: constructed without complaint, but EVERY call (any in-domain input) raises IndexError (no interior heights: unnorm_heights_exp[..., 0] on an empty tensor); Lean: Properties.C17.quad_tails_one_bin_counterexample",
+      {'fn': 'quad', 'tails': True, 'K': 1, 'symptom': 'raises-IndexError'})
 known('C19', 'F24', 'cubic_spline(inverse=True) in float32: the Cardano / trigonometric root formulas lose accuracy in single precision for some parameter values; e.g. PiecewiseCubicCouplingTransform(tails=linear, tail_bound=2.5).inverse at y = 2.5 returned 0.2233 and a NaN log-abs-det (float64 twin: 2.5, 7.108)',
       {'family': 'cubic', 'inverse': True, 'dtype': 'float32'})
 known('C16', 'F25', 'cubic_spline(inverse=True): for some strongly non-uniform parameter values the gradient autograd returns is NaN/inf although the value is finite (sqrt at a vanishing discriminant / masked one-root vs three-root branches); e.g. PiecewiseCubicCouplingTransform on images with perturbed ConvResidualNet parameters',
